@@ -572,9 +572,27 @@ package commands
 //@   assumed
 //@   props C14
 //@   modifies fresh
+// C20, the command layer: `install` hands its own --force / --manual on to the
+// hook update; with --manual nothing is written (the steps are printed), and
+// without it every hook is installed with exactly the caller's force flag -
+// implicit installs (other commands) never force.
+//@ func installHooksCommand
+//@   props C20
+//@   at call commands.updateCommand:1 assert updateForce == forceInstall && updateManual == manualInstall
+//@ func updateCommand
+//@   props C20
+//@   at call commands.installHooks:1 assert arg0__ == updateForce && !updateManual
+//@   at call commands.getHookInstallSteps:1 assert updateManual && !updateForce
 //@ func installHooks
+//@   props C14 C20
+//@   at call (*lfs.Hook).Install:1 assert arg1__ == force
+//@ func getHookInstallSteps
 //@   assumed
-//@   props C14
+//@   props C20
+//@   modifies fresh
+//@ func requireGitVersion
+//@   assumed
+//@   props C20
 //@   modifies fresh
 //@ func github.com/git-lfs/git-lfs/v3/git.NewFilterProcessScanner
 //@   assumed
